@@ -52,6 +52,19 @@ static Plan c15_gen(uint64_t seed, int tier, uint64_t index) {
     Plan p;
     gen_pair_cfg(r, p, true);
     if (r.chance(1, 4) && p.get("ver") != 2 && !(p.get("ver") >= 3 && p.get("tickets"))) { p.cfg["resume"] = 1; }
+    if (p.get("ver") == 2 && r.chance(1, 5)) {
+        // TLS 1.3 server that REJECTS offered early data (HelloRetryRequest) must give up once more undecryptable bytes than its
+        // early-data limit have arrived: the fatal condition is "budget exceeded", the trigger is the honest client's own early data
+        static const int LIM[] = { 300, 1024, 1024, 16384 };
+        p.cfg["early"] = LIM[r.below(4)];
+        if (r.chance(1, 2)) { p.cfg["extpsk"] = 1; p.cfg["suite"] = TLS_AES_128_GCM_SHA256; }      // early data offered under an external PSK is never accepted: the server skips it
+        else { p.cfg["resume"] = 1; p.cfg["tickets"] = 1; p.cfg["early1"] = 16384; p.cfg["grp_c1"] = 23; p.cfg["grp_c2"] = 24; p.cfg["key_shares"] = 1; p.cfg["grp_s1"] = 24; }
+        int ne = 2 + (int) r.below(7);
+        for (int i = 0; i < ne; i++) { p.ops.push_back(Op("early_send", 0, (int64_t) (100 + r.below(500)), (int64_t) r.below(2))); }
+        p.ops.push_back(Op("hs"));
+        add_continuation(r, p, 0);
+        return p;
+    }
     bool established = r.chance(3, 5);
     int dir = (int) r.below(2);
     if (established) {
@@ -89,6 +102,20 @@ static std::vector<Plan> c15_fixed(int tier) {
                 }
             }
         }
+    }
+    // TLS 1.3 server rejecting early data (HelloRetryRequest): client early data below, at and above the server's early-data limit
+    {
+        static const uint16_t S13[] = { TLS_AES_128_GCM_SHA256, TLS_AES_256_GCM_SHA384, TLS_CHACHA20_POLY1305_SHA256 };
+        static const int LIM[] = { 300, 1024 };
+        for (int su = 0; su < 4; su++) { for (int li = 0; li < 2; li++) { for (int n = 1; n <= 8; n += (n < 4 ? 1 : 4)) { for (int len = 200; len <= 400; len += 200) {
+            Plan p; p.seed = 950000 + (uint64_t) (su * 1000 + li * 100 + n * 10 + len / 200);
+            p.cfg["ver"] = 2; p.cfg["sid_kind"] = KK_EC256; p.cfg["early"] = LIM[li];
+            if (su == 3) { p.cfg["suite"] = TLS_AES_128_GCM_SHA256; p.cfg["extpsk"] = 1; }    // rejection because the PSK is an external one
+            else { p.cfg["suite"] = S13[su]; p.cfg["resume"] = 1; p.cfg["tickets"] = 1; p.cfg["early1"] = 16384; p.cfg["grp_c1"] = 23; p.cfg["grp_c2"] = 24; p.cfg["key_shares"] = 1; p.cfg["grp_s1"] = 24; }
+            for (int i = 0; i < n; i++) { p.ops.push_back(Op("early_send", 0, len, i & 1)); }
+            p.ops.push_back(Op("hs")); p.ops.push_back(Op("send", 0, 20)); p.ops.push_back(Op("send", 1, 20)); p.ops.push_back(Op("pump"));
+            v.push_back(p);
+        } } } }
     }
     return v;
 }
@@ -130,6 +157,17 @@ static RunResult c15_exec(const Plan &p) {
                     }
                 }
             }
+            // TLS 1.3 server: protected records swallowed without progress before completion are the "skip rejected early data" allowance;
+            // it is bounded by the server session's early-data limit (RFC 8446 4.2.10), and is zero when no early data was on offer
+            if (!res.violation && o.skipped_records) {
+                size_t bound = ((p.get("resume") && p.get("early1", p.get("early")) > 0) || p.get("extpsk")) ? (size_t) pr.pc.max_early_data : 0;
+                res.count("early.server_skipped_bytes", (int64_t) o.skipped_undecryptable_bytes);
+                if (o.skipped_undecryptable_bytes > bound) {
+                    res.violate("undecryptable_records_tolerated", "srv," + ver + (bound ? ",early_data_rejected" : ",no_early_data_offered"),
+                                "the server swallowed " + std::to_string(o.skipped_undecryptable_bytes) + " bytes in " + std::to_string(o.skipped_records) + " undecryptable records before completion and stayed alive; its early-data limit is " +
+                                std::to_string(bound) + ": beyond that an undecryptable record is a fatal bad_record_mac");
+                }
+            }
             // TLS 1.3: whatever a dead node seals must be an alert (inner type 21)
             for (int role = 0; role < 2 && !res.violation; role++) {
                 if (!o.death[role].dead || pr.pc.dtls()) { continue; }
@@ -148,7 +186,7 @@ static RunResult c15_exec(const Plan &p) {
                     }
                 }
             }
-            res.nontrivial = any_dead || o.fatal_alert_given[0] || o.fatal_alert_given[1];
+            res.nontrivial = any_dead || o.fatal_alert_given[0] || o.fatal_alert_given[1] || o.skipped_records > 0;
             res.fingerprint = pr.fingerprint();
             for (auto &kv : o.counters) { res.counters[kv.first] += kv.second; }
             res.states = o.states;
